@@ -29,7 +29,7 @@ Inductive fval :=
 Definition fkind (v : fval) : string :=
   match v with FRow _ => "row" | FRows _ => "rows" | FTy _ => "ty" | FNat _ => "nat" | FSig _ _ => "sig" end.
 
-Definition sel (f : string) (l : list (string * fval)) : option fval := lookup f l.
+
 
 (* HAND-WRITTEN: which constructor argument is which field of the Rust struct (names as in hugr-core/src/ops/*.rs) *)
 Definition fields_of (o : vop) : list (string * fval) :=
@@ -52,7 +52,7 @@ Definition fields_of (o : vop) : list (string * fval) :=
   | Tag t vs _ => [("tag", FNat t); ("variants", FRows vs)]
   | ExtOp i o' => [("signature", FSig i o')]
   end.
-Definition field (o : vop) (f : string) : option fval := sel f (fields_of o).
+Definition field (o : vop) (f : string) : option fval := slookup f (fields_of o).
 
 (* every field of the Rust struct whose type is TypeRow, Vec<TypeRow>, Type, Signature, usize or PolyFuncType is
    represented with the right kind.  EXCEPTIONS (explicit):
@@ -66,7 +66,7 @@ Definition field_exception (k f : string) : bool :=
 Definition fields_modelled_b : bool :=
   forallb (fun o =>
     forallb (fun k =>
-      match lookup k rs_fields with
+      match slookup k rs_fields with
       | None => false
       | Some fs =>
           forallb (fun ft => field_exception k (fst ft) ||
@@ -108,7 +108,7 @@ Definition eval_item (o : vop) (params : list (string * N)) (it : string * list 
         | _, _ => None
         end
       else if String.eqb kind "row_at" then
-        match field o a, (match field o b with Some (FNat n) => Some n | _ => lookup b params end) with
+        match field o a, (match field o b with Some (FNat n) => Some n | _ => slookup b params end) with
         | Some (FRows rs), Some n => option_map (map RT) (nthN rs n)
         | _, _ => None
         end
@@ -196,7 +196,7 @@ Ltac im_solve :=
 
 (* OpTrait::dataflow_signature: for every operation, the rows of df_sig are the regenerated ones *)
 Theorem df_sig_matches : forall tys o k, derived_ok tys o = true -> In k (rnames o) ->
-  sig_agrees tys o [] (lookup k rs_signature) (df_sig o) = true.
+  sig_agrees tys o [] (slookup k rs_signature) (df_sig o) = true.
 Proof.
   intros tys o k D H.
   destruct o; cbn [rnames rname] in H;
@@ -211,7 +211,7 @@ Qed.
 
 (* DataflowParent::inner_signature *)
 Theorem inner_sig_matches : forall tys o k, derived_ok tys o = true -> In k (rnames o) ->
-  sig_agrees tys o [] (lookup k rs_inner_signature) (inner_sig o) = true.
+  sig_agrees tys o [] (slookup k rs_inner_signature) (inner_sig o) = true.
 Proof.
   intros tys o k D H.
   destruct o; cbn [rnames rname] in H;
@@ -235,17 +235,17 @@ Theorem successor_rows_match : forall ins rows others s i r,
   eval_row (Block ins rows others s) [("#successor", i)] rs_successor_input = Some (map RT r ++ map RT others ++ []).
 Proof. intros. cbn. rewrite H. reflexivity. Qed.
 Theorem block_input_rows_match :
-  (forall ins rows others s, option_map (eval_row (Block ins rows others s) []) (lookup "DataflowBlock" rs_block_input)
+  (forall ins rows others s, option_map (eval_row (Block ins rows others s) []) (slookup "DataflowBlock" rs_block_input)
                              = Some (Some (map RT ins ++ []))) /\
-  (forall outs, option_map (eval_row (ExitB outs) []) (lookup "ExitBlock" rs_block_input) = Some (Some (map RT outs ++ []))).
+  (forall outs, option_map (eval_row (ExitB outs) []) (slookup "ExitBlock" rs_block_input) = Some (Some (map RT outs ++ []))).
 Proof. split; intros; reflexivity. Qed.
 
 (* non-vacuity: a type table with a sum and a function type *)
 Example ex_sig :
   let tys := [TAtom true; TSum true [[0]; []]; TFn [0] [0] 0]%N in
   derived_ok tys (Conditional [[0]; []] [0] [0] 1)%N = true /\
-  sig_agrees tys (Conditional [[0]; []] [0] [0] 1)%N [] (lookup "Conditional" rs_signature)
+  sig_agrees tys (Conditional [[0]; []] [0] [0] 1)%N [] (slookup "Conditional" rs_signature)
              (df_sig (Conditional [[0]; []] [0] [0] 1)%N) = true /\
-  sig_agrees tys (Conditional [[0]; []] [0] [0] 0)%N [] (lookup "Conditional" rs_signature)
+  sig_agrees tys (Conditional [[0]; []] [0] [0] 0)%N [] (slookup "Conditional" rs_signature)
              (df_sig (Conditional [[0]; []] [0] [0] 0)%N) = false.
 Proof. vm_compute. repeat split; reflexivity. Qed.
